@@ -192,7 +192,7 @@ CHECKS = {
              "flags": {"common": ["-unwind", "40", "-sched", "explore"],
                        "quick": ["-preempt", "1"],
                        "thorough": ["-preempt", "2"]},
-             "reach": ["C15.all_returned", "C15.probed_after_close"]},
+             "reach": ["C15.all_returned", "C15.probed_after_close"], "reach_for": "H15_pair", "reach_any": ["C15.large_request"]},
             # the ring a connection gets for any configured size (a ring below two read blocks starves the socket pump)
             {"pkg": "service", "run": "H14_sizes", "flags": {"common": ["-unwind", "100000"]}, "reach": ["C14.sizes"]},
             # the sender pump gives up on a failing socket write - with whatever error - only after closing the ring (see C14)
